@@ -1008,6 +1008,42 @@ class Interp:
             if t and t["k"] == "adt" and self.f.adts.get(t["def"], {}).get("variants"):
                 n = len(self.f.adts[t["def"]]["variants"])
             return VInt(64, True, lin=Lin.atom(("disc", v.tag, 0, n - 1)))
+        if isinstance(v, VApp):
+            # a value decoded by a leaf: the variant is a function of the leaf's arguments; split the
+            # path on the (single, integer) argument until the variant is determined
+            res, atoms = self.leaf_paths(st, v)
+            by = {}
+            for (s2, rv) in res:
+                rv = self.project_val(s2, rv, v.proj)
+                if rv is None:
+                    continue
+                if not isinstance(rv, VAdt):
+                    raise Unanalysable("discriminant of %r" % (v,))
+                adt = self.f.adts.get(rv.adt)
+                d = adt["variants"][rv.variant]["discr"] if adt and adt["variants"] else rv.variant
+                key = tuple(None if a is None else s2.aset(a).iv for a in atoms)
+                by.setdefault(d, []).append(key)
+            if len(by) == 1:
+                return mk_const(list(by)[0], 64, True)
+            if any(a is None for a in atoms):
+                # decoded from bytes (TalkerId::from(&[u8])): an opaque variant number, shared by every
+                # test of the same application
+                return VInt(64, True, lin=Lin.atom(self.appvar_atom(st, v, by)))
+            ints = [i for i, a in enumerate(atoms) if a is not None]
+            if len(ints) == 1 and isinstance(v.args[ints[0]], VInt):
+                i = ints[0]
+                lin = lin_of(st, v.args[i])
+                sa = lin.single_atom()
+                if sa and abs(sa[1]) == 1:
+                    a, k, c = sa
+                    parts = []
+                    for d, keys in by.items():
+                        u = IntSet.empty()
+                        for key in keys:
+                            u = u.union(IntSet(key[i]))
+                        parts.append(IntSet([((lo - c) * k, (hi - c) * k) if k > 0 else ((hi - c) * k, (lo - c) * k) for lo, hi in u.iv]))
+                    raise NeedSplit(a, parts)
+            raise Unanalysable("discriminant of %r" % (v,))
         raise Unanalysable("discriminant of %r" % (v,))
 
     def cmp(self, st, op, la, lb):
@@ -1808,6 +1844,103 @@ class Interp:
         argsets = [self.arg_set(st, a) for a in app.args]
         res, atoms = self.leaf_summary(app.defn, argsets)
         return res, atoms
+
+    def appvar_atom(self, st, app, discrs):
+        ds = sorted(discrs)
+        return ("appvar", valkey(app), ds[0], ds[-1])
+
+    def app_discrs(self, st, app):
+        """discriminants a leaf application can evaluate to; None if it is not an enum value"""
+        res, atoms = self.leaf_paths(st, app)
+        by = set()
+        for (s2, rv) in res:
+            rv = self.project_val(s2, rv, app.proj)
+            if rv is None:
+                continue
+            if not isinstance(rv, VAdt):
+                return None, atoms
+            adt = self.f.adts.get(rv.adt)
+            by.add(adt["variants"][rv.variant]["discr"] if adt and adt["variants"] else rv.variant)
+        return by, atoms
+
+    def app_cases(self, st, app):
+        """split the state by the paths of a leaf application: [(st', concrete projected result)].
+        The leaf's own path conditions (on its integer arguments and on the bytes / length of its
+        slice arguments) are translated to the caller's atoms."""
+        res, atoms = self.leaf_paths(st, app)
+        out = []
+        for (s2, rv) in res:
+            rvp = self.project_val(s2, rv, app.proj)
+            if rvp is None:
+                continue
+            if not (isinstance(rvp, (VBool, VInt)) or (isinstance(rvp, VAdt) and all(isinstance(x, (VInt, VBool)) and (not isinstance(x, VInt) or lin_of(s2, x).is_const()) for x in rvp.fields))):
+                raise Unanalysable("leaf result is not a plain value: %r" % (rvp,))
+            if isinstance(rvp, VInt) and not lin_of(s2, rvp).is_const():
+                raise Unanalysable("leaf result is not a constant on its path: %r" % (rvp,))
+            if isinstance(rvp, VBool) and rvp.cond not in (True, False):
+                d = s2.decide(rvp.cond)
+                if d is None:
+                    raise Unanalysable("leaf result is not decided on its path: %r" % (rvp,))
+                rvp = VBool(d)
+            cur = [st.copy()]
+            for i, (a, arg) in enumerate(zip(atoms, app.args)):
+                nxt = []
+                for s3 in cur:
+                    if a is not None:
+                        aset = s2.aset(a)
+                        if isinstance(arg, VInt):
+                            lin = lin_of(s3, arg)
+                            if lin.is_const():
+                                if aset.contains(lin.c):
+                                    nxt.append(s3)
+                                continue
+                            sa = lin.single_atom()
+                            if not sa or abs(sa[1]) != 1:
+                                raise Unanalysable("leaf argument is a compound value")
+                            at, k, c = sa
+                            tr = IntSet([((lo - c) * k, (hi - c) * k) if k > 0 else ((hi - c) * k, (lo - c) * k) for lo, hi in aset.iv])
+                            nxt += s3.assume(("in", at, tr), True)
+                        elif isinstance(arg, VBool):
+                            want = aset.contains(1), aset.contains(0)
+                            if want[0]:
+                                nxt += s3.copy().assume(arg.cond, True)
+                            if want[1]:
+                                nxt += s3.copy().assume(arg.cond, False)
+                        else:
+                            raise Unanalysable("leaf argument %r" % (arg,))
+                    else:
+                        sl = arg
+                        if isinstance(sl, VRef):
+                            sl = self.read_ref(s3, sl)
+                        if not isinstance(sl, VSlice):
+                            raise Unanalysable("leaf argument %r" % (arg,))
+                        name = "$arg%d" % i
+                        okk = True
+                        for at, aset in s2.pc.sets.items():
+                            if at[0] == "byte" and at[1] == name:
+                                pos = Lin(at[2][1], at[2][2])
+                                if not pos.is_const():
+                                    raise Unanalysable("leaf constrains a byte at a symbolic position")
+                                b = ("byte", sl.buf, (sl.start + pos.c).key())
+                                new = s3.aset(b).intersect(aset)
+                                if new.is_empty():
+                                    okk = False
+                                    break
+                                s3.pc.sets[b] = new
+                            elif at == ("len", name):
+                                r = s3.lin_range(sl.len)
+                                if sl.len.is_const():
+                                    if not aset.contains(sl.len.c):
+                                        okk = False
+                                        break
+                                elif not r.subset_of(aset):
+                                    raise Unanalysable("leaf path depends on the length of a slice of symbolic length")
+                        if okk:
+                            nxt.append(s3)
+                cur = nxt
+            for s3 in cur:
+                out.append((s3, rvp))
+        return out
 
     def leaf_result_variants(self, st, app):
         """possible Result variants of a leaf application, payload kept as a projected VApp"""
